@@ -95,12 +95,14 @@ def run(tier, args):
         parts = [(n, x, int(b) - int(a), s) for (n, x, _, s) in parts]
     agg = Agg()
     part_counters = {}
+    rich_samples = []
     for name, extra, n, stream in parts:
         lo = seed_lo(stream) if not args.seeds else int(args.seeds.split("..")[0])
         t1 = time.time()
         doc, rc = run_json([BIN, "batch", "--seeds", f"{lo}..{lo+n}", "--threads", "16", *extra], timeout=7200)
         log(f"[{PROP}] {name}: {doc['runs']} runs, {doc['nontrivial_runs']} non-trivial, {len(doc['violations'])} failing, {time.time()-t1:.1f}s")
         if "--rich" in extra:
+            rich_samples += doc["samples"][:1]
             part_counters[name] = {
                 "runs": doc["runs"],
                 "nontrivial_runs": doc["nontrivial_runs"],
@@ -121,7 +123,7 @@ def run(tier, args):
         "evaluations": agg.runs,
         "distinct_nontrivial": agg.distinct_nontrivial,
         "rule": "one evaluation = one simulated history: a seeded operation list (Mine, SwitchBranch, Sync [with bounce = append, rollback, compare, append], Rollback, Query) executed against the real indexer on its own store (ckb-indexer on RocksDB in parts main_domain / known_deviation_domains, ckb-rich-indexer on SQLite in parts rich / rich_known_deviation_domains; separate seed streams) and against the simulator's chain model; after every append/rollback the tip (both APIs) and a sweep (every pool script x lock/type x get_cells/get_transactions exact, every (code_hash, hash_type) family by prefix incl. get_cells_capacity) are compared, every Query op is compared, and every arrival at a block by rollback is compared with the snapshot taken when that block was appended. distinct = distinct hash of the executed operation sequence (op kinds, what each Sync did, reorg depths, transactions per mined block); non-trivial = the sync actor rolled back at least one block because the main chain switched branches (depth >= 1), or a manual Rollback was followed by the append of a different block at that height",
-        "samples": agg.samples[:3],
+        "samples": (agg.samples[:2] + rich_samples[:2]) if rich_samples else agg.samples[:3],
         "parts": agg.parts,
         "known_deviation_domains_part_skipped": skip_dev,
         "rich_parts": part_counters,
